@@ -111,6 +111,10 @@ fn sanitize(prog: &mut Vec<Stmt>, defined: &mut std::collections::HashSet<usize>
                         } else if !matches!(v, Val::Inc(_)) {
                             *v = Val::Inc(1);
                         }
+                        // (an increment needs a number to start from)
+                        if matches!(v, Val::Inc(_)) && !defined.contains(&2) {
+                            *v = Val::Lit("7".into());
+                        }
                     } else if matches!(v, Val::Inc(_)) {
                         *v = Val::Ref(2);
                     }
@@ -125,6 +129,9 @@ fn sanitize(prog: &mut Vec<Stmt>, defined: &mut std::collections::HashSet<usize>
                     for (k, _) in asg.iter() {
                         defined.insert(*k);
                     }
+                } else if !defined.contains(&2) && !asg.iter().any(|(k, _)| *k == 2) {
+                    // the template reads $n: where the program has not defined it, the instance binds it
+                    asg.push((2, Val::Lit("7".into())));
                 }
             }
             Stmt::G(attrs, body) => {
@@ -153,12 +160,17 @@ fn sanitize(prog: &mut Vec<Stmt>, defined: &mut std::collections::HashSet<usize>
 }
 
 fn fam_programs(_t: Tier) -> BoxedStrategy<Case> {
-    vec(stmt(4), 2..9).prop_map(|mut prog| {
+    (vec(stmt(4), 2..9), 0u8..4).prop_map(|(mut prog, init)| {
         let mut defined = std::collections::HashSet::new();
-        defined.insert(2usize);
+        // n starts out numeric in three programs out of four (in the others the document's first <var> can be anywhere,
+        // also inside a group); every program ends with a probe
+        if init != 0 {
+            defined.insert(2usize);
+        }
         sanitize(&mut prog, &mut defined);
-        // n starts out numeric; every program ends with a probe
-        prog.insert(0, Stmt::Var(vec![(2, Val::Lit("1".into()))]));
+        if init != 0 {
+            prog.insert(0, Stmt::Var(vec![(2, Val::Lit("1".into()))]));
+        }
         prog.push(Stmt::Probe);
         Case { prog }
     }).boxed()
@@ -233,7 +245,17 @@ fn template() -> XEl {
 pub fn doc(c: &Case, late_first: bool) -> String {
     let mut kids: Vec<X> = Vec::new();
     let late = XEl::new("rect").a("id", "late").a("xy", "50 50").a("wh", "4");
-    kids.push(X::El(XEl::new("specs").kid(template())));
+    // (the template is only there when the program instantiates it: a document may well begin with a group)
+    fn has_reuse(p: &[Stmt]) -> bool {
+        p.iter().any(|s| match s {
+            Stmt::Reuse(_) => true,
+            Stmt::G(_, b) | Stmt::Loop(_, b) | Stmt::If(_, b) => has_reuse(b),
+            _ => false,
+        })
+    }
+    if has_reuse(&c.prog) {
+        kids.push(X::El(XEl::new("specs").kid(template())));
+    }
     if late_first {
         kids.push(X::El(late.clone()));
     }
